@@ -187,8 +187,14 @@ def history(run, length, seed_tag):
         if rng.random() < 0.12:
             # parameter update followed by renormalisation
             s = rng.choice(sh.basis)
-            kind = rng.choice(["exps", "exps", "coeffs", "coord"])
-            if kind == "exps":
+            kind = rng.choice(["exps", "exps", "coeffs", "coord", "exps-in-place", "coeffs-in-place", "norm_cont-by-hand"])
+            if kind == "exps-in-place":
+                s.exps *= np.array([core.snap(rng.uniform(0.6, 1.6), 6) for _ in range(s.exps.size)])       # edit inside the array held
+            elif kind == "coeffs-in-place":
+                s.coeffs[:, rng.randrange(s.coeffs.shape[1])] *= core.snap(rng.choice([-1, 1]) * rng.uniform(0.5, 50.0), 6)
+            elif kind == "norm_cont-by-hand":
+                s.norm_cont = np.ones_like(s.norm_cont)
+            elif kind == "exps":
                 s.exps = s.exps * np.array([core.snap(rng.uniform(0.6, 1.6), 6) for _ in range(s.exps.size)])
             elif kind == "coeffs":
                 s.coeffs = s.coeffs * np.array([[core.snap(rng.uniform(0.5, 1.5), 6)] for _ in range(s.coeffs.shape[0])])
@@ -299,6 +305,38 @@ def freshness(run):
     return ok
 
 
+def helper_freshness(run):
+    """the public helpers of gbasis.spherical return fresh objects: a caller that edits what it received does not change what a
+    later call (its own or the library's) gets"""
+    from gbasis.spherical import generate_transformation, real_solid_harmonic
+    ok = True
+    for l in range(4):
+        cart = np.array([(x, y, l - x - y) for x in range(l, -1, -1) for y in range(l - x, -1, -1)])
+        sph = tuple(["c1", "s1", "c0"] if l == 1 else [f"s{m}" for m in range(l, 0, -1)] + [f"c{m}" for m in range(l + 1)])
+        run.case(("helper-fresh", l))
+        run.count("freshness of gbasis.spherical helpers")
+        d1 = real_solid_harmonic(l, 0)
+        ref = dict(d1)
+        for k in list(d1):
+            d1[k] = d1[k] * 3.0
+        if dict(real_solid_harmonic(l, 0)) != ref:
+            run.violation(f"real_solid_harmonic({l}, 0) returns an object shared between calls: editing one result changes the next",
+                          {"case": "helper-fresh", "l": l, "function": "real_solid_harmonic", "signature": {"kind": "purity-fresh-helper"}})
+            ok = False
+        t1 = generate_transformation(l, cart, sph, "left")
+        ref = t1.copy()
+        try:
+            t1 *= 3.0
+        except ValueError:
+            pass
+        t2 = generate_transformation(l, cart, sph, "left")
+        if np.shares_memory(t1, t2) or not np.array_equal(t2, ref):
+            run.violation(f"generate_transformation(l={l}) returns an array shared between calls: editing one result changes the next",
+                          {"case": "helper-fresh", "l": l, "function": "generate_transformation", "signature": {"kind": "purity-fresh-helper"}})
+            ok = False
+    return ok
+
+
 def as_constructed(run):
     rng = run.rng
     from gbasis.integrals.overlap import overlap_integral
@@ -358,6 +396,46 @@ def aliasing_histories(run, n=4):
     return ok
 
 
+def rejected_updates(run, n=3):
+    """parameter updates that the setters must reject (wrong number of coefficient rows, wrong number of exponents, a centre that is
+    not a 3-vector, a negative angular momentum, an unknown coordinate type): they raise, the shell is bitwise unchanged, and the
+    calls made before give the same arrays afterwards"""
+    from gbasis.integrals.overlap import overlap_integral
+    rng = run.rng
+    ok = True
+    for k in range(n):
+        s = rand_shell(rng, rng.randint(0, 2), [], nprim=3, nseg=rng.randint(1, 2), exp_lo=0.1, exp_hi=10.0)
+        a = s.make()
+        before = snapshot_basis([a])
+        ov = overlap_integral([a]).tobytes()
+        attempts = [("coeffs", np.array([0.6, 0.4])), ("coeffs", np.ones((1, 3))), ("exps", np.array([1.0, 2.0])), ("coord", np.array([0.0, 1.0])),
+                    ("angmom", -1), ("coord_type", "polar"), ("coeffs", np.ones((2, 2, 2))), ("exps", np.array([[1.0, 2.0, 3.0]]))]
+        for attr, val in attempts:
+            run.case(("rejected-update", attr, str(np.shape(val)), k))
+            run.count("rejected update of " + attr)
+            try:
+                setattr(a, attr, val)
+                outcome = "accepted"
+            except (ValueError, TypeError):
+                outcome = "raised"
+            if outcome == "accepted":
+                # an update the setter accepts is not this function's business; restore a fresh shell for the next attempt
+                a = s.make()
+                before = snapshot_basis([a])
+                continue
+            try:
+                same = same_basis([a], before) and overlap_integral([a]).tobytes() == ov
+            except Exception:
+                same = False
+            if not same:
+                run.violation(f"a rejected update of `{attr}` (shape {np.shape(val)}) left the shell modified: later calls on it fail or differ",
+                              {"case": "rejected-update", "attribute": attr, "basis": [s.describe()], "signature": {"kind": "purity-rejected-update"}})
+                ok = False
+                a = s.make()
+                before = snapshot_basis([a])
+    return ok
+
+
 def import_histories(run, n=4):
     """import calls in a history: parse, use / edit the result, parse again, rewrite the file, parse again (see c18.repeated_import_case)"""
     from checks import c18
@@ -374,10 +452,18 @@ def check(run):
     as_constructed(run)
     import_histories(run, 4 if quick else 24)
     aliasing_histories(run, 3 if quick else 18)
+    rejected_updates(run, 2 if quick else 10)
+    helper_freshness(run)
 
 
 def replay(run, rep):
     n0 = len(run.violations)
+    if rep.get("case") == "helper-fresh":
+        helper_freshness(run)
+        return len(run.violations) == n0
+    if rep.get("case") == "rejected-update":
+        rejected_updates(run, 6)
+        return len(run.violations) == n0
     if rep.get("case") == "alias":
         aliasing_histories(run, 6)
         return len(run.violations) == n0
